@@ -167,7 +167,9 @@ pub fn mkval(d: &J) -> AnyVal {
         "datetime" => AnyVal::DateTime(mkdatetime(&ivec(&d["v"]))),
         "dur" => {
             let v = ivec(&d["v"]);
-            AnyVal::Dur(Duration::new(v[0] as u64, (v[1] as u32) * 1000))
+            // optional third element: a sub-microsecond part in nanoseconds
+            let ns = v.get(2).copied().unwrap_or(0) as u32;
+            AnyVal::Dur(Duration::new(v[0] as u64, (v[1] as u32) * 1000 + ns))
         }
         "none" => AnyVal::NoneOf(d["of"].as_str().unwrap_or("u8").to_string()),
         "some" => AnyVal::SomeOf(Box::new(mkval(&d["v"]))),
